@@ -38,6 +38,8 @@ FAMILIES = {
     "tag-pairs": lambda n: "{% f %}{% /f %} " * n, "quotes": lambda n: "\"a\" 'b' " * n, "dots": lambda n: "a... " * n,
     "paragraphs": lambda n: "para text here.\n\n" * n, "table-rows": lambda n: "| a | b |\n|---|---|\n" + "| c | d |\n" * n,
     "unclosed-lt": lambda n: "i<n " + "word " * n,
+    # ... and one that is closed far behind, after an apostrophe (a tag pattern that pairs quotes must not try every split)
+    "lt-apostrophe-gt": lambda n: "i<n " + "word " * n + "it's so, and y>0\n", "lt-quote-gt": lambda n: "x <a href=\"u " + "word " * n + "> y\n",
     "backtick-run-in-text": lambda n: "a " + "`" * n + " b\n",
     "ref-links": lambda n: "".join(f"See [text {i}][r{i}] here.\n\n" for i in range(n // 4)) + "".join(f"[r{i}]: http://x.org/{i}\n" for i in range(n // 4)),
     "heading-code-spaces": lambda n: "# a `x" + " " * n + "y` b\n",
